@@ -19,6 +19,7 @@ import Driver.StateStore
 import Driver.Timers
 import Driver.Journal
 import Driver.Replay
+import Driver.EventLog
 
 def main (args : List String) : IO UInt32 := do
   let stdin ← IO.getStdin
@@ -43,4 +44,5 @@ def main (args : List String) : IO UInt32 := do
   | ["timers"] => Drv.loop stdin Drv.Timers.step {}; return 0
   | ["journal"] => Drv.loop stdin Drv.Journal.step {}; return 0
   | ["replay"] => Drv.loop stdin Drv.Replay.step {}; return 0
+  | ["eventlog"] => Drv.loop stdin Drv.EventLog.step {}; return 0
   | _ => IO.eprintln "usage: wfdriver <model>"; return 2
